@@ -99,7 +99,7 @@ def parse_loc(s):
     return (relpath(m.group(1)), int(m.group(2)), int(m.group(3)))
 
 
-def extract_unit(name, src, flags, timeout=900, extra_roots=()):
+def extract_unit(name, src, flags, timeout=3600, extra_roots=()):
     """Run the extractor on one TU (cached). Returns the output prefix."""
     ensure_extractor()
     d = os.path.join(CACHE, tree_hash())
